@@ -15,6 +15,7 @@ From Verif Require Import Bytes ListDS ZSetDS.
 From VerifGo Require Import GoSem GoListFacts GoZSetFacts.
 From VerifGen Require Import GoZSet.
 From Verif Require Import Codec Dec Engine.
+From Coq Require Import Strings.String.
 From VerifGo Require GoTxZFacts.
 From VerifGen Require GoTxZ.
 Open Scope Z_scope.
@@ -55,6 +56,22 @@ Theorem C07_code_ZRemRangeByRank_closed : forall now g b s e, GoTxZ.Tx_db_isnil 
   exists er, GoTxZ.go_Tx_ZRemRangeByRank now g b s e = GOk (g, er) /\ er <> ENil.
 Proof. exact GoTxZFacts.go_Tx_ZRemRangeByRank_closed. Qed.
 Print Assumptions C07_code_ZRemRangeByRank_closed.
+
+Theorem C07_code_ZMembers_fun : forall g b,
+  GoTxZ.go_Tx_ZMembers g b =
+    if GoTxZ.Tx_db_isnil g then GOk (g, ([], EVar "ErrTxClosed"%string))
+    else match alookup (GoTxZ.DB_SortedSetIdx (GoTxZ.Tx_db g)) b with
+         | None => GOk (g, ([], EVar "ErrBucket"%string))
+         | Some ss => GOk (g, (SortedSet_Dict ss, ENil))
+         end.
+Proof. exact GoTxZFacts.go_Tx_ZMembers_fun. Qed.
+Print Assumptions C07_code_ZMembers_fun.
+
+Theorem C07_code_ZCard_ZMembers : forall g b,
+  exists m e, GoTxZ.go_Tx_ZMembers g b = GOk (g, (m, e)) /\
+              GoTxZ.go_Tx_ZCard g b = GOk (g, ((if err_is_nil e then zlen m else 0), e)).
+Proof. exact GoTxZFacts.go_Tx_ZCard_ZMembers. Qed.
+Print Assumptions C07_code_ZCard_ZMembers.
 
 (** the abstraction is satisfiable: any Go transaction object, once open, writable and with no pending write,
     stands for the empty model transaction with the same id *)
